@@ -21,9 +21,14 @@ def _take_post(model):
 def _init_worker(scratch):
     runner._init_worker(scratch)
     import geophires_x.Model  # noqa: F401  (circular import: Model first)
-    from geophires_x import Outputs as O
-    orig = O.Outputs.PrintOutputs
-    if getattr(orig, '_c09_wrapped', False):
+    from geophires_x import Outputs as O, SUTRAOutputs as SO
+    for cls in (O.Outputs, SO.SUTRAOutputs):      # the main writer and the one SUTRA runs use instead
+        _wrap(cls)
+
+
+def _wrap(cls):
+    orig = cls.__dict__.get('PrintOutputs')
+    if orig is None or getattr(orig, '_c09_wrapped', False):
         return
 
     def wrapped(self, model):
@@ -37,7 +42,7 @@ def _init_worker(scratch):
                 snapshot.LAST['snap_post_error'] = repr(e)
 
     wrapped._c09_wrapped = True
-    O.Outputs.PrintOutputs = wrapped
+    cls.PrintOutputs = wrapped
 
 
 def _job(args):
